@@ -44,9 +44,11 @@ NackResult(b, t, q, s) ==
     ELSE [resend |-> TRUE,  bumped |-> (b # q), base |-> q]
 
 (***************************************************************************)
-(* The code as pinned (before the fix: commits) used Contains without the  *)
-(* q < s guard.  Kept as named deviation operators so that TLC can show    *)
-(* what the unguarded arithmetic admits (see DevUnguarded* in MC_Window).  *)
+(* The code as pinned (before the fix: commit) used Contains without the   *)
+(* q < s guard (uint8 arithmetic, hence the % 256).  Kept as named         *)
+(* deviation operators so that TLC can show what the unguarded arithmetic  *)
+(* admits (MC_Window_dev.cfg) and so that a trace of a tree without the    *)
+(* fix is classified precisely (checks/c09.py).                            *)
 (***************************************************************************)
 DevAckResult(b, t, q, s) ==
     IF QSize(b, t, s) = 0
@@ -54,7 +56,7 @@ DevAckResult(b, t, q, s) ==
     ELSE IF q = b
     THEN [empty |-> FALSE, valid |-> TRUE,  base |-> (b + 1) % s]
     ELSE IF Contains(b, t, q)
-    THEN [empty |-> FALSE, valid |-> TRUE,  base |-> (q + 1) % s]
+    THEN [empty |-> FALSE, valid |-> TRUE,  base |-> ((q + 1) % 256) % s]
     ELSE [empty |-> FALSE, valid |-> FALSE, base |-> b]
 
 DevNackResult(b, t, q, s) ==
